@@ -137,11 +137,32 @@ pub fn call_generator(src: &str, opts: &Opts, detail: u64, budget: u64) -> CallO
                 _ => ("Other", json!({})),
             };
             // rendering the error against the same source must not panic (C17)
+            // the two stderr renderers, with stderr pointed at /dev/null for the duration
+            let r3 = {
+                let devnull = std::fs::OpenOptions::new().write(true).open("/dev/null").ok();
+                let saved = unsafe { libc::dup(2) };
+                if let Some(f) = &devnull {
+                    use std::os::fd::AsRawFd;
+                    unsafe { libc::dup2(f.as_raw_fd(), 2) };
+                }
+                let r = catch_unwind(AssertUnwindSafe(|| {
+                    e.emit_to_stderr(src);
+                    e.emit_to_stderr_with_path(src, "shader.wgsl");
+                }));
+                if saved >= 0 {
+                    unsafe {
+                        libc::dup2(saved, 2);
+                        libc::close(saved);
+                    }
+                }
+                r
+            };
             let r1 = catch_unwind(AssertUnwindSafe(|| e.emit_to_string(src)));
             let r2 = catch_unwind(AssertUnwindSafe(|| e.emit_to_string_with_path(src, "shader.wgsl")));
             renders = json!({
                 "to_string": match &r1 { Ok(s) => json!({"ok": true, "len": s.len()}), Err(_) => json!({"ok": false}) },
                 "to_string_with_path": match &r2 { Ok(s) => json!({"ok": true, "len": s.len(), "has_path": s.contains("shader.wgsl")}), Err(_) => json!({"ok": false}) },
+                "to_stderr": json!({"ok": r3.is_ok()}),
             });
             let mut m = json!({"kind":"err","err":name,"display":disp});
             if let (Some(mm), Some(ex)) = (m.as_object_mut(), extra.as_object()) {
